@@ -89,7 +89,10 @@ pub fn run_case(_ctx: &Ctx, case: &Value, tag: usize, rep: &mut Report, mb: &mut
     }
     let sb = vocab::single_byte_words();
     let sb_eos = sb.len() as u32 - 1;
-    let (Ok(wc), Ok(wb)) = (World::new(words, eos, true, None), World::new(sb, sb_eos, false, None)) else { rep.skip("world"); return; };
+    // every other case with the default token slices: a pending healing prefix must survive the slicer's shortcut
+    let sl = llguidance::earley::SlicedBiasComputer::general_slices();
+    let slices = if case["seed"].as_u64().unwrap_or(0) % 2 == 0 { rep.count("case.slices=1"); Some(&sl[..]) } else { rep.count("case.slices=0"); None };
+    let (Ok(wc), Ok(wb)) = (World::new(words, eos, true, slices), World::new(sb, sb_eos, false, None)) else { rep.skip("world"); return; };
     let mut m = wc.matcher(&g);
     let mut b = wb.matcher(&g);
     if m.is_error() || b.is_error() { rep.skip("grammar-rejected"); return; }
